@@ -12,8 +12,8 @@ import (
 	"github.com/bronlabs/bron-crypto/pkg/base/curves/pasta"
 
 	"verifmc/engine"
-	"verifmc/ref/curve"
 	refcbor "verifmc/ref/cbor"
+	"verifmc/ref/curve"
 )
 
 // fcodec binds one library field (scalar field or coordinate field) to its order. An element of an extension field is
